@@ -1,15 +1,15 @@
 SPECIFICATION MCSpec
 CONSTANTS
-  Parsers = {"A", "B"}
+  Parsers = {"A"}
   Buffers <- MCBuffers
   AllowedSets <- MCAllowedSets
-  MaxCalls = 8
+  MaxCalls = 6
   Devs = {}
-  Life = "off"
-  LifeLetters = 0
-  Depth2 = TRUE
-VIEW MCView
-ACTION_CONSTRAINT EmitVector
+  Life = "v9"
+  LifeLetters = 7
+  Depth2 = FALSE
+VIEW LifeView
+ACTION_CONSTRAINT EmitLife
 INVARIANTS Total AccountingInv MicroEqualsMacro ErrorKeepsCache CacheIsLatest
 PROPERTIES Progress NeverEvicted OnlyTemplatesWrite Isolation DataUsesCache
 CHECK_DEADLOCK FALSE
